@@ -76,10 +76,12 @@ def eval_schema(m, mode, tags):
         bad("verdict", f"R7 finds {ref[:3]} but validate_schema reports "
             f"{[e.message for e in errs[:3]]}")
     msgs = [e.message for e in errs]
-    still = {r for r, _e in ref}
+    still = {(r, e) for r, e in ref}
     for tag, el in tags:
-        if tag not in still:
-            continue  # a later mutation removed the element this one had planted
+        if not any(r == tag and (e == el or str(e).startswith(str(el) + "(")) for r, e in still):
+            # a later mutation removed the element this one had planted, or the planted change is not a
+            # defect after all (e.g. an "invalid" default for a list of a custom scalar, which accepts anything)
+            continue
         frag = g2x.EXPECT[tag]
         if not any(frag in msg for msg in msgs):
             bad("rule-not-reported", f"planted {tag} at {el}: no message contains {frag!r}; "
